@@ -352,7 +352,15 @@ impl Gen {
             6 => 2,
             _ => 3,
         };
-        asp::Atom { predicate_symbol: name, terms: (0..arity).map(|_| self.aterm(depth)).collect() }
+        let mut terms: Vec<asp::Term> = (0..arity).map(|_| self.aterm(depth)).collect();
+        // trap for the natural translation: an interval at position i whose bound is the variable N<i>
+        if arity > 0 && self.rng.chance(1, 12) {
+            let i = self.rng.below(arity);
+            let v = asp::Term::Variable(asp::Variable(if self.rng.chance(3, 4) { format!("N{i}") } else { format!("N{i}_0") }));
+            let other = self.aterm(0);
+            terms[i] = asp::Term::BinaryOperation { op: asp::BinaryOperator::Interval, lhs: Box::new(if self.rng.chance(1, 2) { v.clone() } else { other.clone() }), rhs: Box::new(if self.rng.chance(1, 2) { v } else { other }) };
+        }
+        asp::Atom { predicate_symbol: name, terms }
     }
 
     pub fn abody_atom(&mut self, depth: usize) -> asp::AtomicFormula {
